@@ -14,9 +14,14 @@ package main
 
 import (
 	"fmt"
+	"io"
 	"net"
+	"os"
+	"runtime"
+	"sort"
 	"strconv"
 	"strings"
+	"sync"
 	"time"
 
 	"bfeverif/harness/internal/vh"
@@ -24,15 +29,171 @@ import (
 	spdy "github.com/bfenetworks/bfe/bfe_spdy"
 )
 
-const barrierBase = 1000001
+// ---------------------------------------------------------------- quiescence
+
+var waitPrefixes = []string{"chan receive", "chan send", "select", "IO wait", "sync.", "sleep",
+	"GC worker (idle)", "force gc (idle)", "GC sweep wait", "GC scavenge wait", "finalizer wait", "timer goroutine (idle)",
+	"cleanup wait"}
+
+// quiesce returns once every goroutine except the caller is blocked (channel, select, cond, mutex ...): nothing
+// in the process can make progress until the harness acts (timers of the server are hours away).  The decision is
+// taken on a stop-the-world snapshot of all goroutine states (runtime.Stack), never on elapsed time.
+func quiesce() string {
+	buf := make([]byte, 1<<20)
+	deadline := time.Now().Add(15 * time.Second)
+	for spins := 0; ; spins++ {
+		runtime.Gosched()
+		n := runtime.Stack(buf, true)
+		busy := ""
+		first := true
+		for _, blk := range strings.Split(string(buf[:n]), "\n\n") {
+			if !strings.HasPrefix(blk, "goroutine ") {
+				continue
+			}
+			i, j := strings.IndexByte(blk, '['), strings.IndexByte(blk, ']')
+			if i < 0 || j < i {
+				continue
+			}
+			if first { // the caller is listed first
+				first = false
+				continue
+			}
+			st := blk[i+1 : j]
+			if k := strings.IndexByte(st, ','); k >= 0 {
+				st = st[:k]
+			}
+			ok := false
+			for _, p := range waitPrefixes {
+				if strings.HasPrefix(st, p) {
+					ok = true
+					break
+				}
+			}
+			if !ok {
+				busy = st
+				break
+			}
+		}
+		if busy == "" {
+			if os.Getenv("C40_DEBUG") != "" {
+				fmt.Fprintf(os.Stderr, "---- quiescent after %d spins\n%s\n", spins, string(buf[:n]))
+			}
+			return ""
+		}
+		if time.Now().After(deadline) {
+			return "HANG(" + busy + ")"
+		}
+		if spins > 50 {
+			time.Sleep(20 * time.Microsecond)
+		}
+	}
+}
+
+// ---------------------------------------------------------------- scripted handlers
+
+type cmd struct {
+	kind byte // 'r' read n bytes of the body (io.ReadFull), 'w' write n bytes and flush, 'f' return
+	n    int
+}
+
+type registry struct {
+	mu sync.Mutex
+	h  map[uint32]chan cmd
+}
+
+var reg *registry
 
 func handler(w http.ResponseWriter, r *http.Request) {
-	<-w.(http.CloseNotifier).CloseNotify()
+	id := uint32(r.State.SerialNumber-1)*2 + 1
+	ch := make(chan cmd, 256)
+	myReg := reg
+	myReg.mu.Lock()
+	myReg.h[id] = ch
+	myReg.mu.Unlock()
+	defer func() {
+		myReg.mu.Lock()
+		delete(myReg.h, id)
+		myReg.mu.Unlock()
+	}()
+	buf := make([]byte, 1<<17)
+	for c := range ch {
+		switch c.kind {
+		case 'r':
+			io.ReadFull(r.Body, buf[:c.n])
+		case 'w':
+			w.Write(buf[:c.n])
+			w.(http.Flusher).Flush()
+		case 'f':
+			return
+		}
+	}
+}
+
+type clientView struct {
+	mu     sync.Mutex
+	frames []spdy.Frame
+	closed bool
 }
 
 func atoi(s string) (uint32, bool) {
 	v, err := strconv.ParseUint(s, 10, 32)
 	return uint32(v), err == nil
+}
+
+// render groups what arrived during one event by stream id (0 = connection), keeps the arrival order inside a
+// group and merges the WINDOW_UPDATEs of a group into one token (their split depends on read sizes only).
+func render(fs []spdy.Frame) string {
+	type tok struct {
+		id  uint32
+		s   string
+		wu  bool
+		sum uint64
+	}
+	var toks []*tok
+	wuOf := map[uint32]*tok{}
+	for _, g := range fs {
+		switch g := g.(type) {
+		case *spdy.PingFrame:
+			toks = append(toks, &tok{id: 0, s: fmt.Sprintf("ping(%d)", g.Id)})
+		case *spdy.RstStreamFrame:
+			toks = append(toks, &tok{id: uint32(g.StreamId), s: fmt.Sprintf("rst(%d,%d)", g.StreamId, g.Status)})
+		case *spdy.GoAwayFrame:
+			toks = append(toks, &tok{id: 0, s: fmt.Sprintf("goaway(%d,%d)", g.LastGoodStreamId, g.Status)})
+		case *spdy.WindowUpdateFrame:
+			id := uint32(g.StreamId)
+			if t, ok := wuOf[id]; ok {
+				t.sum += uint64(g.DeltaWindowSize)
+			} else {
+				t := &tok{id: id, wu: true, sum: uint64(g.DeltaWindowSize)}
+				wuOf[id] = t
+				toks = append(toks, t)
+			}
+		case *spdy.SynReplyFrame:
+			fin := 0
+			if g.StreamEnded() {
+				fin = 1
+			}
+			toks = append(toks, &tok{id: uint32(g.StreamId), s: fmt.Sprintf("reply(%d,%d)", g.StreamId, fin)})
+		case *spdy.DataFrame:
+			fin := 0
+			if g.StreamEnded() {
+				fin = 1
+			}
+			toks = append(toks, &tok{id: uint32(g.StreamId), s: fmt.Sprintf("data(%d,%d,%d)", g.StreamId, len(g.Data), fin)})
+		default:
+			toks = append(toks, &tok{id: 0, s: fmt.Sprintf("other(%T)", g)})
+		}
+	}
+	sort.SliceStable(toks, func(i, j int) bool { return toks[i].id < toks[j].id })
+	var out []string
+	for _, t := range toks {
+		if t.wu {
+			out = append(out, fmt.Sprintf("wu(%d,%d)", t.id, t.sum))
+		} else {
+			out = append(out, t.s)
+		}
+	}
+	return "[" + strings.Join(out, ",") + "]"
 }
 
 func execSv(toks []string) string {
@@ -43,46 +204,57 @@ func execSv(toks []string) string {
 	if !ok || maxS == 0 {
 		return "bad-op"
 	}
+	reg = &registry{h: map[uint32]chan cmd{}}
+	myReg := reg
 	cc, sc := net.Pipe()
 	done := spdy.VerifC40Serve(sc, http.HandlerFunc(handler), maxS)
 	fr, err := spdy.NewFramer(cc, cc)
 	if err != nil {
 		return "newframer-failed"
 	}
-	frames := make(chan spdy.Frame, 64)
+	cv := &clientView{}
 	go func() {
 		for {
 			f, err := fr.ReadFrame()
+			cv.mu.Lock()
 			if err != nil {
-				close(frames)
+				cv.closed = true
+				cv.mu.Unlock()
 				return
 			}
-			frames <- f
+			cv.frames = append(cv.frames, f)
+			cv.mu.Unlock()
 		}
 	}()
 	defer func() {
 		cc.Close()
+		myReg.mu.Lock()
+		for _, ch := range myReg.h {
+			close(ch)
+		}
+		myReg.mu.Unlock()
 		select {
 		case <-done:
-		case <-time.After(5 * time.Second):
+		case <-time.After(10 * time.Second):
 		}
 		fr.ReleaseWriter()
+		quiesce()
 	}()
-	// the server's initial SETTINGS
-	select {
-	case f, ok := <-frames:
-		if _, isSet := f.(*spdy.SettingsFrame); !ok || !isSet {
-			return "no-initial-settings"
-		}
-	case <-time.After(10 * time.Second):
-		return "HANG"
+	if h := quiesce(); h != "" {
+		return h
+	}
+	cv.mu.Lock()
+	okSet := len(cv.frames) == 1
+	if okSet {
+		_, okSet = cv.frames[0].(*spdy.SettingsFrame)
+	}
+	cv.frames = nil
+	cv.mu.Unlock()
+	if !okSet {
+		return "no-initial-settings"
 	}
 	var out []string
-	write := func(f spdy.Frame) bool {
-		cc.SetWriteDeadline(time.Now().Add(10 * time.Second))
-		return fr.WriteFrame(f) == nil
-	}
-	for k, ev := range toks[1:] {
+	for _, ev := range toks[1:] {
 		if len(ev) < 2 {
 			return "bad-op"
 		}
@@ -123,55 +295,47 @@ func execSv(toks []string) string {
 			f = &spdy.SettingsFrame{FlagIdValues: []spdy.SettingsFlagIdValue{{Id: spdy.SettingsInitialWindowSize, Value: n[0]}}}
 		case ev[0] == 'P' && len(n) == 1:
 			f = &spdy.PingFrame{Id: n[0]}
+		case (ev[0] == 'r' || ev[0] == 'w') && len(n) == 2 && n[1] <= 1<<17:
+			myReg.mu.Lock()
+			if ch, ok := myReg.h[n[0]]; ok {
+				ch <- cmd{ev[0], int(n[1])}
+			}
+			myReg.mu.Unlock()
+		case ev[0] == 'f' && len(n) == 1:
+			myReg.mu.Lock()
+			if ch, ok := myReg.h[n[0]]; ok {
+				ch <- cmd{'f', 0}
+			}
+			myReg.mu.Unlock()
 		default:
 			return "bad-op"
 		}
-		// frames the client-side writer itself refuses (stream id 0 ...) are not sent: the event is a no-op
-		sent := write(f)
-		barrier := uint32(barrierBase + 2*k)
-		if !write(&spdy.PingFrame{Id: barrier}) {
-			sent = false
+		if f != nil {
+			// frames the client-side writer itself refuses (stream id 0 ...) are not sent: the event is a no-op
+			cc.SetWriteDeadline(time.Now().Add(10 * time.Second))
+			fr.WriteFrame(f)
 		}
-		_ = sent
-		var toksOut []string
-		closed, goaway := false, false
-	wait:
-		for {
-			select {
-			case g, ok := <-frames:
-				if !ok {
-					closed = true
-					break wait
-				}
-				switch g := g.(type) {
-				case *spdy.PingFrame:
-					if g.Id == barrier {
-						break wait
-					}
-					toksOut = append(toksOut, fmt.Sprintf("ping(%d)", g.Id))
-				case *spdy.RstStreamFrame:
-					toksOut = append(toksOut, fmt.Sprintf("rst(%d,%d)", g.StreamId, g.Status))
-				case *spdy.GoAwayFrame:
-					toksOut = append(toksOut, fmt.Sprintf("goaway(%d,%d)", g.LastGoodStreamId, g.Status))
-					goaway = true
-					break wait // after an error GOAWAY the server writes nothing more and closes 250 ms later
-				case *spdy.WindowUpdateFrame:
-					toksOut = append(toksOut, fmt.Sprintf("wu(%d,%d)", g.StreamId, g.DeltaWindowSize))
-				default:
-					toksOut = append(toksOut, fmt.Sprintf("other(%T)", g))
-				}
-			case <-time.After(20 * time.Second):
-				return strings.Join(out, " ") + " HANG"
-			}
+		if h := quiesce(); h != "" {
+			return strings.Join(out, " ") + " " + h
 		}
+		cv.mu.Lock()
+		got := cv.frames
+		cv.frames = nil
+		closed := cv.closed
+		cv.mu.Unlock()
+		out = append(out, render(got))
 		if closed {
-			// what arrived before the close is timing dependent only in whether a GOAWAY made it: keep rst/goaway
-			out = append(out, "["+strings.Join(toksOut, ",")+"]", "closed")
+			out = append(out, "closed")
 			break
 		}
-		out = append(out, "["+strings.Join(toksOut, ",")+"]")
+		goaway := false
+		for _, g := range got {
+			if _, ok := g.(*spdy.GoAwayFrame); ok {
+				goaway = true
+			}
+		}
 		if goaway {
-			out = append(out, "stop")
+			out = append(out, "stop") // after an error GOAWAY the server sends nothing more and closes 250 ms later
 			break
 		}
 	}
